@@ -1,8 +1,9 @@
 (* C14 -- descriptor lookups find every key and reject every non-key.
    Numeric lookups: int_range_lookup is regenerated from protobuf-c.c; the table
    is the generator's (GenModel/Ranges.v, tied to the emitted tables). *)
-From Coq Require Import ZArith List Bool.
-From PBC Require Import Base.CInt Gen.LeafC GenModel.Ranges Proofs.Lookup Proofs.LookupGen.
+From Coq Require Import ZArith List Bool Sorted.
+From PBC Require Import Base.CInt Gen.LeafC GenModel.Ranges GenModel.Gen GenModel.LookupModel Proofs.Lookup Proofs.LookupGen
+     Proofs.GenStruct Proofs.NameLookup Proofs.GenNameLookup.
 Import ListNotations.
 Local Open Scope Z_scope.
 
@@ -33,3 +34,65 @@ Example C14_extremes :
       [-2147483648; -2147483647; -2147483646; -5; -1; 0; 2; 3; 2147483645; 2147483646; 2147483647]
   = [0; 1; -1; 2; -1; 3; 5; -1; -1; 6; 7].
 Proof. vm_compute. reflexivity. Qed.
+
+(* ---- the generated descriptors (GenModel/Gen.v) under the library's lookups (GenModel/LookupModel.v) *)
+
+(* field by number: index of the entry with that number, or -1, for every 32-bit key *)
+Theorem C14_generated_message_by_number : forall tg fs f gi m x,
+  pm_fields m <> [] -> NoDup (map pf_number (pm_fields m)) -> Forall in32 (map pf_number (pm_fields m)) ->
+  Z.of_nat (length (pm_fields m)) < 2147483648 -> in32 x ->
+  let g := gen_msg tg fs f gi m in
+  int_range_lookup (gm_n_field_ranges g) (gm_field_ranges g) x =
+  match LookupGen.index_of x (map gf_id (gm_fields g)) with Some k => k | None => -1 end.
+Proof. exact gen_msg_number_lookup. Qed.
+Print Assumptions C14_generated_message_by_number.
+
+(* enum value by number (negative, sparse, aliased, INT32_MIN / INT32_MAX) *)
+Theorem C14_generated_enum_by_number : forall f e x,
+  pe_values e <> [] -> Forall in32 (map snd (pe_values e)) -> Z.of_nat (length (pe_values e)) < 2147483648 -> in32 x ->
+  let g := gen_enum f e in
+  int_range_lookup (ge_n_value_ranges g) (ge_value_ranges g) x =
+  match LookupGen.index_of x (map gev_value (ge_values g)) with Some k => k | None => -1 end.
+Proof. exact gen_enum_number_lookup. Qed.
+Print Assumptions C14_generated_enum_by_number.
+
+(* the strcmp binary search of the three ..._by_name functions, on any strictly ascending table, any key *)
+Theorem C14_name_search_exact : forall names, StronglySorted slt names -> forall key,
+  match name_search names key with
+  | Some p => (p < length names)%nat /\ nth p names [] = key
+  | None => ~ In key names
+  end.
+Proof. exact name_search_correct. Qed.
+Print Assumptions C14_name_search_exact.
+
+(* field by name on a generated message descriptor (names pairwise distinct, as protoc guarantees; not
+   CODE_SIZE, where the table is NULL; not use_oneof_field_name: see the known finding) *)
+Theorem C14_generated_message_by_name : forall tg fs f gi m,
+  code_size f = false -> pfl_use_oneof_field_name f = false -> NoDup (map pf_name (pm_fields m)) ->
+  forall key,
+  match msg_field_by_name (gen_msg tg fs f gi m) key with
+  | Some i => exists gf, nth_error (gm_fields (gen_msg tg fs f gi m)) i = Some gf /\ gf_name gf = Some key
+  | None => forall gf, In gf (gm_fields (gen_msg tg fs f gi m)) -> gf_name gf <> Some key
+  end.
+Proof. exact gen_msg_name_lookup. Qed.
+Print Assumptions C14_generated_message_by_name.
+
+(* enum value by name, aliases included: the entry found carries the number declared for that name *)
+Theorem C14_generated_enum_by_name : forall f e,
+  code_size f = false -> NoDup (map fst (pe_values e)) -> forall key,
+  match enum_value_by_name (gen_enum f e) key with
+  | Some i => exists v gv, In (key, v) (pe_values e) /\ nth_error (ge_values (gen_enum f e)) i = Some gv /\ gev_value gv = v
+  | None => forall v, ~ In (key, v) (pe_values e)
+  end.
+Proof. exact gen_enum_name_lookup. Qed.
+Print Assumptions C14_generated_enum_by_name.
+
+(* service method by name *)
+Theorem C14_generated_service_by_name : forall fs f s,
+  code_size f = false -> NoDup (map pmt_name (ps_methods s)) -> forall key,
+  match svc_method_by_name (gen_svc fs f s) key with
+  | Some i => exists mt, nth_error (gs_methods (gen_svc fs f s)) i = Some mt /\ gmt_name mt = Some key
+  | None => forall mt, In mt (gs_methods (gen_svc fs f s)) -> gmt_name mt <> Some key
+  end.
+Proof. exact gen_svc_name_lookup. Qed.
+Print Assumptions C14_generated_service_by_name.
